@@ -356,7 +356,31 @@ func (w *world) denom(d *denomRef) string {
 	if d == nil {
 		return "unone"
 	}
-	return spell(w.chainDenom(d), d.Sp)
+	return spellings(w.chainDenom(d))[d.Sp%(maxSp+1)]
+}
+
+// spellings: the maxSp+1 spellings of a chain denom, PAIRWISE DISTINCT strings.  An EIP55 address without upper-case
+// letters (or one that happens to alternate) makes spell collide with the chain's own string (probability (13/16)^40 per
+// address); such a candidate gets its leading characters upper-cased until it is a string of its own.
+func spellings(chain string) [maxSp + 1]string {
+	var out [maxSp + 1]string
+	for sp := 0; sp <= maxSp; sp++ {
+		cand := spell(chain, sp)
+		for n := 1; n <= len(cand); n++ {
+			clash := false
+			for q := 0; q < sp; q++ {
+				if out[q] == cand {
+					clash = true
+				}
+			}
+			if !clash {
+				break
+			}
+			cand = strings.ToUpper(cand[:n]) + cand[n:]
+		}
+		out[sp] = cand
+	}
+	return out
 }
 
 // chainDenom: the name in the spelling the chain itself uses
